@@ -54,6 +54,14 @@ theorem packet_roundtrip (parseKV : Bytes → Option Bytes) (tags flds wf : Byte
     wpDrain parseKV (wpEncode tags flds evs) = .ok (tags, evs.map (storedModel parseKV wf)) :=
   wpDrain_encode parseKV tags flds wf evs ht hf hp hn hwf hval
 
+/-- **The bytes sent are the bytes built** — the premise under which the wire theorems speak about what a client receives: in
+`api/rpc` no pooled buffer is used after its release (statement order, regenerated from the AST of `ServerQuerier.query` and
+the `rc.Collect` sites): whatever another handler does with the pool, the page on the wire is the page the query loop built.
+Moving `qr.Close()` in front of `SendResponse` flips the fact and breaks this obligation. -/
+theorem response_bytes_are_built_bytes (built : Bytes) (env : Bytes → Bytes) : responseOnWire built env = built := by
+  have h : Generated.C01.pooledBuffersReleasedAfterLastUse = true := by decide
+  simp [responseOnWire, h]
+
 /-- the regenerated facts about `Fields.Concat` and `wpIterator.Get` put the write-level fields first -/
 theorem wpFields_eq (wf ef : Bytes) : wpFields wf ef = wf ++ ef := by
   have h1 : Generated.C01.concatReceiverFirst = true := by decide
